@@ -6,6 +6,11 @@ type Profile struct {
 	Run  func(seed int64, out *Recorder, nOps int) *Chain
 }
 
+func init() {
+	Profiles["determinism"] = Profile{Mods: nil, Run: DeterminismProfile}
+	Profiles["export"] = Profile{Mods: nil, Run: ExportProfile}
+}
+
 var Profiles = map[string]Profile{
 	"oracle": {Mods: []string{"bank", "oracle", "distr"}, Run: OracleProfile},
 	"bankvm": {Mods: []string{"bank", "vesting", "cvm", "staking"}, Run: BankVMProfile},
